@@ -77,7 +77,8 @@ func (m *topkMem) Exec(op Tok) (opOut Tok, obs Tok) {
 		if sk != nil {
 			rows, cols = uint64(sk.GetRows()), uint64(sk.GetColumns())
 		}
-		opOut = TL(a[0], a[1], a[2], TNu(rows), TNu(cols))
+		_, er, acc, _, _ := gx.VerifTopKState(t)
+		opOut = TL(a[0], a[1], a[2], TNu(rows), TNu(cols), TNu(m.orc.addFloat(er)), TNu(m.orc.addFloat(acc)))
 		if sk == nil {
 			// the constructor swallowed the sketch error; every later use panics on the nil sketch
 			return opOut, TPanic(panNil)
@@ -132,6 +133,9 @@ func (g *Gen) topkCount() uint64 {
 func (g *Gen) topkNew(i int) Tok {
 	k := g.Pick(1, 1, 2, 3, 3, 5, 8)
 	er := g.Pick(900000, 500000, 300000, 100000, 10000, 1000)
+	if g.Small {
+		er = g.Pick(900000, 500000, 300000)
+	}
 	acc := g.Pick(990000, 500000, 300000, 100000, 10000)
 	return TL(TNi(tkNew), TNi(i), TNi(k), TNi(er), TNi(acc))
 }
